@@ -76,7 +76,8 @@ def literal(c):
     spec = MOD[lit["mod"]] + LETTER[lit["ty"]]
     colon = ":" if (spec or lit["mod"] in ("colon", "colon_ws")) else ""
     ph = "{" + ref + colon + spec + (" " if lit["mod"] in ("ws", "colon_ws") else "") + "}"
-    s = ("a " if lit["pre"] else "") + ph + (" b" if lit["post"] else "") + ("{1}" if lit["nph"] == 2 else "")
+    pre, post = ("{{", "}}") if lit.get("esc") else ("a ", " b")
+    s = (pre if lit["pre"] else "") + ph + (post if lit["post"] else "") + ("{1}" if lit["nph"] == 2 else "")
     return s
 
 
